@@ -19,6 +19,16 @@ RHS = [
     ("index-error", "arr[idx]", ["arr = [1]", "idx = 5"], True),
     ("assert-false", "assert cond", ["cond = False"], True),
     ("user-func", "f(1)", ["f(a: Nat) = a + 1"], False),
+    # the effect / the raising operation sits BELOW the top node of the right-hand side: a purity analysis that only
+    # looks at the top node (or forgets a child: attribute receiver, operand, element) loses it
+    ("attr-of-proc-call", "p!().real", ["p!() =", '    print! "p called"', "    1"], True),
+    ("attr-of-raising", "(1 // zero).real", ["zero = 0"], True),
+    ("binop-with-proc-call", "p!() + 1", ["p!() =", '    print! "p called"', "    1"], True),
+    ("unary-of-proc-call", "-p!()", ["p!() =", '    print! "p called"', "    1"], True),
+    ("list-with-proc-call", "[p!()]", ["p!() =", '    print! "p called"', "    1"], True),
+    ("tuple-with-raising", "(1 // zero, 2)", ["zero = 0"], True),
+    ("index-of-list-with-proc-call", "[p!()][0]", ["p!() =", '    print! "p called"', "    1"], True),
+    ("call-arg-raising", "f(1 // zero)", ["f(a: Int) = a + 1", "zero = 0"], True),
 ]
 PLACES = ["top", "function", "procedure", "lambda", "if-branch", "for-body"]
 FORMS = ["private", "public"]
